@@ -472,7 +472,7 @@ func evalArray(node *jparse.ArrayNode, data reflect.Value, env *environment) (re
 func evalObject(node *jparse.ObjectNode, data reflect.Value, env *environment) (reflect.Value, error) {
 	data = makeArray(data)
 
-	keys, err := groupItemsByKey(node, data, env)
+	keys, order, err := groupItemsByKey(node, data, env)
 	if err != nil {
 		return undefined, err
 	}
@@ -480,7 +480,12 @@ func evalObject(node *jparse.ObjectNode, data reflect.Value, env *environment) (
 	nItems := data.Len()
 	results := make(map[string]interface{}, len(keys))
 
-	for key, idx := range keys {
+	// Evaluate the values in the order in which the keys first
+	// appear (not in map order): a value expression can bind a
+	// variable that a later one uses.
+	for _, key := range order {
+
+		idx := keys[key]
 
 		items := data
 		if n := len(idx.items); n != 0 && n != nItems {
@@ -520,9 +525,10 @@ type keyIndexes struct {
 	items []int
 }
 
-func groupItemsByKey(obj *jparse.ObjectNode, items reflect.Value, env *environment) (map[string]keyIndexes, error) {
+func groupItemsByKey(obj *jparse.ObjectNode, items reflect.Value, env *environment) (map[string]keyIndexes, []string, error) {
 	nItems := items.Len()
 	results := make(map[string]keyIndexes, len(obj.Pairs))
+	order := make([]string, 0, len(obj.Pairs))
 
 	for i, pair := range obj.Pairs {
 
@@ -532,12 +538,13 @@ func groupItemsByKey(obj *jparse.ObjectNode, items reflect.Value, env *environme
 
 			key := s.Value
 			if _, ok := results[key]; ok {
-				return nil, newEvalError(ErrDuplicateKey, keyNode, key)
+				return nil, nil, newEvalError(ErrDuplicateKey, keyNode, key)
 			}
 
 			results[key] = keyIndexes{
 				pair: i,
 			}
+			order = append(order, key)
 			continue
 		}
 
@@ -545,12 +552,12 @@ func groupItemsByKey(obj *jparse.ObjectNode, items reflect.Value, env *environme
 
 			v, err := eval(keyNode, items.Index(j), env)
 			if err != nil {
-				return nil, err
+				return nil, nil, err
 			}
 
 			key, ok := jtypes.AsString(v)
 			if !ok {
-				return nil, newEvalError(ErrIllegalKey, keyNode, nil)
+				return nil, nil, newEvalError(ErrIllegalKey, keyNode, nil)
 			}
 
 			idx, ok := results[key]
@@ -559,11 +566,12 @@ func groupItemsByKey(obj *jparse.ObjectNode, items reflect.Value, env *environme
 					pair:  i,
 					items: []int{j},
 				}
+				order = append(order, key)
 				continue
 			}
 
 			if idx.pair != i {
-				return nil, newEvalError(ErrDuplicateKey, keyNode, key)
+				return nil, nil, newEvalError(ErrDuplicateKey, keyNode, key)
 			}
 
 			idx.items = append(idx.items, j)
@@ -571,7 +579,7 @@ func groupItemsByKey(obj *jparse.ObjectNode, items reflect.Value, env *environme
 		}
 	}
 
-	return results, nil
+	return results, order, nil
 }
 
 func evalBlock(node *jparse.BlockNode, data reflect.Value, env *environment) (reflect.Value, error) {
